@@ -5,6 +5,8 @@ import (
 	"io"
 	"os"
 	"path/filepath"
+	"sort"
+	"strings"
 )
 
 // ---- file-system model (harness level): *os.File values are identities, contents live in vFiles ----
@@ -271,3 +273,23 @@ func stubOsRename(oldpath, newpath string) error {
 }
 
 var vRenames int
+
+// filepath.Glob over the model's named files, for patterns of the shape "<literal prefix>*" (matches within one
+// directory level, as Glob does); any other pattern shape is outside the model.
+//
+//verif:stub path/filepath.Glob
+func stubFilepathGlob(pattern string) ([]string, error) {
+	if !strings.HasSuffix(pattern, "*") || strings.ContainsAny(pattern[:len(pattern)-1], "*?[\\") {
+		vAssert(false, "model: glob pattern shape not modelled")
+		return nil, filepath.ErrBadPattern
+	}
+	prefix := pattern[:len(pattern)-1]
+	out := []string{}
+	for name, vf := range vByName {
+		if vf != nil && !vf.removed && strings.HasPrefix(name, prefix) && !strings.Contains(name[len(prefix):], "/") {
+			out = append(out, name)
+		}
+	}
+	sort.Strings(out)
+	return out, nil
+}
